@@ -118,7 +118,7 @@ fn c22_compound_not_placeholder_keeps_other_pseudos() {
     }
 }
 #[kani::proof]
-#[kani::unwind(5)]
+#[kani::unwind(10)]
 fn c22_pseudo_without_selector_argument_is_kept() {
     let p = kp::plain("hover");
     match p.no_placeholder() {
@@ -130,7 +130,8 @@ fn c22_pseudo_without_selector_argument_is_kept() {
 #[kani::proof]
 #[kani::unwind(4)]
 fn cover_selectors() {
-    let s = simple(kani::any());
-    kani::cover!(matches!(s.no_placeholder(), Opt::None));
-    kani::cover!(matches!(s.no_placeholder(), Opt::Some(_)));
+    let p: bool = kani::any();
+    let c = kc::mk(false, p, true, vec![]);
+    kani::cover!(kc::shape(&c).0 == 1);
+    kani::cover!(kc::shape(&c).0 == 0);
 }
